@@ -332,7 +332,7 @@ def oracle_config(ctx, cfg, bank, raised, r, say=None):
         if raised != "ValueError":
             viol(small(cfg), "ValueError", raised or "accepted",
                  "low_hz<0, or a positive high_hz not above low_hz or more than 1 Hz above Nyquist, raises ValueError",
-                 tags=dict(clause="range_rejected", kind=kind))
+                 tags=dict(clause="range_rejected", kind=kind, got=raised or "accepted", high_is_none=cfg["high"] is None))
         return None
     if raised:
         if in_scope(cfg):
@@ -645,9 +645,9 @@ def construct(cfg):
 
 def run(ctx, driver):
     r = ctx.rng
-    n_valid = ctx.scale(110, 2500)
-    n_bound = ctx.scale(40, 600)
-    n_bad = ctx.scale(60, 800)
+    n_valid = ctx.scale(450, 2500)
+    n_bound = ctx.scale(150, 600)
+    n_bad = ctx.scale(220, 800)
     cfgs = [dict(c) for c in CORPUS]
     cfgs += [gen_cfg(r, "valid") for _ in range(n_valid)]
     cfgs += [gen_cfg(r, "boundary") for _ in range(n_bound)]
